@@ -57,9 +57,14 @@ def check_node(prog, model, node, depth=0):
         return "rule number R%d out of range for %s" % (k, rel)
     rule = rules[k - 1]
     head = [h for h in rule.heads if h.rel == rel][0]
-    pos = [l for l in rule.body if l.__class__ is Atom]
-    negs = [l for l in rule.body if l.__class__ is Neg]
-    cons = [l for l in rule.body if l.__class__ is Cmp]
+    # souffle removes syntactically duplicated body literals before evaluation: the proof is over the de-duplicated body
+    body = []
+    for l in rule.body:
+        if l not in body:
+            body.append(l)
+    pos = [l for l in body if l.__class__ is Atom]
+    negs = [l for l in body if l.__class__ is Neg]
+    cons = [l for l in body if l.__class__ is Cmp]
     ch = node.get("children", [])
     if len(ch) != len(pos) + len(negs) + len(cons):
         return "rule R%d of %s has %d body literals but the proof node has %d children" % (k, rel, len(pos) + len(negs) + len(cons), len(ch))
@@ -109,6 +114,32 @@ def check_node(prog, model, node, depth=0):
     except (ref.Ungrounded, Undefined) as e:
         return "proof leaves a variable of rule R%d unbound (%s)" % (k, e)
     return None
+
+
+def connected(case):
+    """every positive body atom of every rule is linked to the head (directly or through other atoms) by shared variables:
+    otherwise the AST transformers move it into an internal +disconnected relation that shows up in the explanation"""
+    for ru in case.prog.rules:
+        if ru.__class__ is not Rule or not ru.body:
+            continue
+        hv = set()
+        for h in ru.heads:
+            hv.update(vars_of(h))
+        atoms = [l for l in ru.body if l.__class__ is Atom]
+        reach = set(hv)
+        pending = list(atoms)
+        progress = True
+        while pending and progress:
+            progress = False
+            for a in list(pending):
+                av = set(vars_of(a))
+                if av & reach:
+                    reach |= av
+                    pending.remove(a)
+                    progress = True
+        if pending:
+            return False
+    return True
 
 
 def _job(arg):
@@ -197,6 +228,7 @@ def check(tier):
     dl = Deadline(480 if tier == "quick" else 3300)
     wd = fresh_dir(PID)
     core = families.core_cases(1) + families.core_cases(2, terms=("x", "y"), consts=(), cmp_ops=("<",))[:: (3 if tier == "quick" else 1)]
+    core = [c for c in core if connected(c)]
     cases = core + gen2.family_mutrec("quick") + gen2.family_multirec("quick")
     # cids must be unique
     by = {}
